@@ -20,11 +20,21 @@ MCCands == IF NNodes = 3
                    C("n4", <<0, 0, 1>>, 0, "n3"), [l |-> "n4", lp |-> -3, pv |-> <<-2, 1, -2>>, p |-> 0, r |-> B("n1")] >>
 MCRoots == {"n1"}
 
-NQ == Cardinality({k \in 1..Len(hist) : hist[k].op # "declare"})
+\* unit DEFINITIONS are part of the history too (VERIF_LATEDEFS = 1): the last node only comes into existence when a
+\* "define" event says so; before that nothing can mention it
+LateDefs == EnvInt("VERIF_LATEDEFS", 0)
+Late == IF LateDefs = 1 THEN {IF NNodes = 3 THEN "n3" ELSE "n4"} ELSE {}
+Defined == MCBase \ {b \in Late : ~\E k \in 1..Len(hist) : hist[k].op = "define" /\ hist[k].u = Single(b)}
+DefineLate(b) == /\ b \in Late /\ b \notin Defined
+                 /\ ev' = Ev("define", 0, Single(b), Single(b), "ok", PV0, 0)
+                 /\ hist' = Append(hist, ev') /\ UNCHANGED decl
+Usable(i) == {MCCands[i].l} \cup Support(MCCands[i].r) \subseteq Defined
+NQ == Cardinality({k \in 1..Len(hist) : hist[k].op \in {"query", "compare"}})
 MCNext ==
-  \/ \E i \in 1..Len(MCCands) : Len(decl) < MaxDecl /\ Declare(i)
-  \/ \E a, b \in MCBase : a # b /\ NQ < MaxQ /\ QueryNode(a, b, 1)
-  \/ \E a, b \in MCBase : a # b /\ NQ < MaxQ /\ CompareNode(a, b, 1)
+  \/ \E i \in 1..Len(MCCands) : Len(decl) < MaxDecl /\ Usable(i) /\ Declare(i)
+  \/ \E a, b \in Defined : a # b /\ NQ < MaxQ /\ QueryNode(a, b, 1)
+  \/ \E a, b \in Defined : a # b /\ NQ < MaxQ /\ CompareNode(a, b, 1)
+  \/ \E b \in Late : DefineLate(b)
 \* theorem config: declaration subsets only (no history), all orders
 MCNextDecl == \E i \in 1..Len(MCCands) : Declare(i)
 DeclView == Declared
